@@ -3368,6 +3368,12 @@ impl<'s> Semantics<'s> {
             if detail.op_count == 1 {
                 let imm = self.operand_load(block, &detail.operands[0])?;
                 let sp = self.get_register(x86_reg::X86_REG_SP)?.get_full()?;
+                // the 16-bit immediate is zero-extended to the width of the stack pointer
+                let imm = match imm.bits().cmp(&sp.bits()) {
+                    std::cmp::Ordering::Less => Expr::zext(sp.bits(), imm)?,
+                    std::cmp::Ordering::Greater => Expr::trun(sp.bits(), imm)?,
+                    std::cmp::Ordering::Equal => imm,
+                };
                 sp.set(block, Expr::add(sp.get()?, imm)?)?;
             }
 
